@@ -511,25 +511,28 @@ theorem isBoundKey_upper (o : Str) : isBoundKey (scopeKey o sUpper) = true := by
 
 theorem isBoundKey_name {o : Str} (h : ObjName o) : isBoundKey o = false := h.2.2.2
 
+theorem sBinsLB_eq : sBinsLB = sBins ++ '.' :: sLower := by decide
+
 /-- the titles of an objective are not in the scope of the bin bounds -/
 theorem objTitle_not_bins {o t : Str} (ho : ObjName o) (ht : t ∈ objTitles o) :
-    ("bins.lowerBound.".toList.isPrefixOf t = false) ∧ t ≠ sBinsLB := by
+    ((sBinsLB ++ ['.']).isPrefixOf t = false) ∧ t ≠ sBinsLB := by
   obtain ⟨_, hdot, hbins, _⟩ := ho
-  have key : ∀ s : Str, '.' ∉ s → ("bins.lowerBound.".toList.isPrefixOf (scopeKey o s) = false) ∧ scopeKey o s ≠ sBinsLB := by
+  have hdl : '.' ∉ sLower := by decide
+  have hdb : '.' ∉ sBins := by decide
+  have key : ∀ s : Str, '.' ∉ s → ((sBinsLB ++ ['.']).isPrefixOf (scopeKey o s) = false) ∧ scopeKey o s ≠ sBinsLB := by
     intro s hs
     constructor
-    · cases hp : "bins.lowerBound.".toList.isPrefixOf (scopeKey o s) with
+    · cases hp : (sBinsLB ++ ['.']).isPrefixOf (scopeKey o s) with
       | false => rfl
       | true =>
         rw [List.isPrefixOf_iff_prefix] at hp
         obtain ⟨rest, hr⟩ := hp
         have h1 := split_scopeKey hdot hs
         rw [← hr] at h1
-        have h2 : splitSep '.' ("bins.lowerBound.".toList ++ rest) =
-            "bins".toList :: "lowerBound".toList :: splitSep '.' rest := by
-          have : "bins.lowerBound.".toList ++ rest = "bins".toList ++ '.' :: ("lowerBound".toList ++ '.' :: rest) := by
-            simp
-          rw [this, splitSep_append '.' _ _ (by decide), splitSep_append '.' _ _ (by decide)]
+        have h2 : splitSep '.' (sBinsLB ++ ['.'] ++ rest) = sBins :: sLower :: splitSep '.' rest := by
+          have : sBinsLB ++ ['.'] ++ rest = sBins ++ '.' :: (sLower ++ '.' :: rest) := by
+            rw [sBinsLB_eq]; simp
+          rw [this, splitSep_append '.' _ _ hdb, splitSep_append '.' _ _ hdl]
         rw [h2] at h1
         have := congrArg List.length h1
         have hne := splitSep_ne_nil '.' rest
@@ -539,21 +542,24 @@ theorem objTitle_not_bins {o t : Str} (ho : ObjName o) (ht : t ∈ objTitles o) 
     · intro he
       have h1 := split_scopeKey hdot hs
       rw [he] at h1
-      have h2 : splitSep '.' sBinsLB = ["bins".toList, "lowerBound".toList] := by decide
+      have h2 : splitSep '.' sBinsLB = [sBins, sLower] := by
+        rw [sBinsLB_eq, splitSep_append '.' _ _ hdb, splitSep_token '.' _ hdl]
       rw [h2] at h1
       simp only [List.cons.injEq] at h1
       exact hbins h1.1.symm
   simp only [objTitles, List.mem_cons, List.not_mem_nil, or_false] at ht
   rcases ht with rfl | rfl | rfl
-  · exact key sLower (by decide)
+  · exact key sLower hdl
   · constructor
-    · cases hp : "bins.lowerBound.".toList.isPrefixOf t with
+    · cases hp : (sBinsLB ++ ['.']).isPrefixOf t with
       | false => rfl
       | true =>
         rw [List.isPrefixOf_iff_prefix] at hp
         obtain ⟨rest, hr⟩ := hp
         exact absurd (by rw [← hr]; simp) hdot
-    · intro he; rw [he] at hdot; revert hdot; decide
+    · intro he
+      rw [he, sBinsLB_eq] at hdot
+      exact hdot (by simp)
   · exact key sUpper (by decide)
 
 /-- titles of different objectives differ; within one objective the three titles differ -/
@@ -572,19 +578,757 @@ theorem objTitles_disjoint {a k t : Str} (ha : ObjName a) (hk : ObjName k) (h1 :
   · exact scopeKey_inj_left h2
 
 /-- a bin-bound key survives "strip the scope, then re-scope" -/
-theorem rescope_strip {k : Str} (h : BBKey k) :
-    (if "bins.lowerBound.".toList.isPrefixOf k then some (rescope (k.drop 16))
-     else if k = sBinsLB then some (rescope k) else none) = some k := by
-  rcases h with rfl | ⟨hp, hne⟩
-  · decide
+theorem rescope_strip {k : Str} (h : BBKey k) : ∃ u, scopeUse sBinsLB k = some u ∧ rescope u = k := by
+  unfold scopeUse
+  rcases h with hk | ⟨hp, hne⟩
+  · have h1 : ¬ ((sBinsLB ++ ['.']).isPrefixOf k = true) := by
+      rw [hk, List.isPrefixOf_iff_prefix]
+      intro ⟨rest, hr⟩
+      have := congrArg List.length hr
+      simp at this
+    rw [if_neg h1, if_pos hk]
+    exact ⟨k, rfl, by simp [rescope, hk]⟩
   · rw [if_pos hp]
-    congr 1
+    refine ⟨_, rfl, ?_⟩
     unfold rescope
-    have hne' : List.drop 16 k ≠ sBinsLB := hne
-    rw [if_neg hne']
+    rw [if_neg hne]
     rw [List.isPrefixOf_iff_prefix] at hp
     obtain ⟨rest, hr⟩ := hp
     rw [← hr]
-    simp [scopeKey, sBinsLB]
+    simp [scopeKey]
 
+theorem scopeUse_none {k : Str} (h : ((sBinsLB ++ ['.']).isPrefixOf k = false) ∧ k ≠ sBinsLB) :
+    scopeUse sBinsLB k = none := by
+  unfold scopeUse
+  simp [h.1, h.2]
+
+end Csv
+
+namespace Csv
+open Text
+
+/-! ### the column dictionary -/
+
+theorem filter_zipIdx_all (l : List Str) (n : Nat) (p : Str → Bool) (h : ∀ x ∈ l, p x = true) :
+    (l.zipIdx n).filter (fun c => p c.1) = l.zipIdx n :=
+  List.filter_eq_self.mpr (fun c hc => h c.1 (List.fst_mem_of_mem_zipIdx hc))
+
+theorem filter_zipIdx_none (l : List Str) (n : Nat) (p : Str → Bool) (h : ∀ x ∈ l, p x = false) :
+    (l.zipIdx n).filter (fun c => p c.1) = [] :=
+  List.filter_eq_nil_iff.mpr (fun c hc => by simp [h c.1 (List.fst_mem_of_mem_zipIdx hc)])
+
+theorem map_fst_filter_zipIdx (l : List Str) (n : Nat) (p : Str → Bool) :
+    ((l.zipIdx n).filter (fun c => p c.1)).map (·.1) = l.filter p := by
+  induction l generalizing n with
+  | nil => rfl
+  | cons a l ih =>
+    simp only [List.zipIdx_cons, List.filter_cons]
+    split <;> simp [ih]
+
+theorem csvColumn_mid (X Y : Cols) (k : Str) (i : Nat) (hX : k ∉ X.map (·.1)) (hY : k ∉ Y.map (·.1)) :
+    csvColumn (X ++ (k, i) :: Y) k = some (i, X ++ Y) := by
+  unfold csvColumn
+  rw [List.lookup_append, lookup_eq_none_of_not_mem hX]
+  simp only [Option.none_or, List.lookup_cons, beq_self_eq_true, Option.map_some, Option.some.injEq,
+    Prod.mk.injEq, true_and]
+  rw [List.filter_append, List.filter_cons]
+  simp only [bne_self_eq_false, Bool.false_eq_true, if_false]
+  congr 1
+  · apply List.filter_eq_self.mpr
+    intro c hc
+    simp only [bne_iff_ne, ne_eq]
+    intro e; exact hX (List.mem_map.mpr ⟨c, hc, e⟩)
+  · apply List.filter_eq_self.mpr
+    intro c hc
+    simp only [bne_iff_ne, ne_eq]
+    intro e; exact hY (List.mem_map.mpr ⟨c, hc, e⟩)
+
+theorem csvColumns_self (cols : Cols) (hn : (cols.map (·.1)).Nodup) :
+    csvColumns cols (cols.map (·.1)) = some (cols, []) := by
+  induction cols with
+  | nil => rfl
+  | cons c cols ih =>
+    cases c with
+    | mk k i =>
+      simp only [List.map_cons, List.nodup_cons] at hn
+      simp only [List.map_cons, csvColumns]
+      have := csvColumn_mid [] cols k i (by simp) hn.1
+      simp only [List.nil_append] at this
+      rw [this]
+      simp [ih hn.2]
+
+/-! ### the titles of the objectives -/
+
+def boundTitles (o : Str) : List Str := [scopeKey o sLower, scopeKey o sUpper]
+
+theorem filter_bound_titles (ks : List Str) (h : ∀ o ∈ ks, ObjName o) :
+    (ks.flatMap objTitles).filter isBoundKey = ks.flatMap boundTitles ∧
+    (ks.flatMap objTitles).filter (fun t => !isBoundKey t) = ks := by
+  induction ks with
+  | nil => exact ⟨rfl, rfl⟩
+  | cons o ks ih =>
+    obtain ⟨i1, i2⟩ := ih (fun x hx => h x (by simp [hx]))
+    have ho := isBoundKey_name (h o (by simp))
+    simp only [List.flatMap_cons, List.filter_append, i1, i2]
+    simp [objTitles, boundTitles, List.filter_cons, isBoundKey_lower, isBoundKey_upper, ho]
+
+theorem nodup_boundTitles (ks : List Str) (hn : ks.Nodup) (h : ∀ o ∈ ks, ObjName o) :
+    (ks.flatMap boundTitles).Nodup := by
+  induction ks with
+  | nil => simp
+  | cons o ks ih =>
+    simp only [List.nodup_cons] at hn
+    simp only [List.flatMap_cons]
+    rw [List.nodup_append]
+    refine ⟨?_, ih hn.2 (fun x hx => h x (by simp [hx])), ?_⟩
+    · simp only [boundTitles, List.nodup_cons, List.mem_cons, List.not_mem_nil, or_false, not_false_eq_true,
+        List.nodup_nil, and_true]
+      exact scopeKey_lower_ne_upper o o
+    · intro a ha b hb e
+      subst e
+      obtain ⟨k, hk, hbk⟩ := List.mem_flatMap.mp hb
+      have hsub : ∀ x t, t ∈ boundTitles x → t ∈ objTitles x := by
+        intro x t ht
+        simp only [boundTitles, List.mem_cons, List.not_mem_nil, or_false] at ht
+        simp only [objTitles, List.mem_cons, List.not_mem_nil, or_false]
+        rcases ht with rfl | rfl <;> simp
+      have := objTitles_disjoint (h o (by simp)) (h k (by simp [hk])) (hsub _ _ ha) (hsub _ _ hbk)
+      subst this
+      exact hn.1 hk
+
+/-- the objective names the reader derives from the sorted bound columns are the writer's objectives -/
+theorem namesOfBounds_eq (ks : List Str) (hs : ks.Pairwise (· < ·)) (h : ∀ o ∈ ks, ObjName o)
+    (ob : List (Str × Nat)) (hob : ∀ t, t ∈ ob.map (·.1) ↔ t ∈ ks.flatMap boundTitles) :
+    namesOfBounds ob = ks := by
+  unfold namesOfBounds
+  rw [← sortedSet_of_sorted hs]
+  apply sortedSet_congr
+  intro x
+  have hdl : '.' ∉ sLower := by decide
+  have hdu : '.' ∉ sUpper := by decide
+  constructor
+  · intro hx
+    obtain ⟨kv, hkv, hf⟩ := List.mem_filterMap.mp hx
+    have hmem := (hob kv.1).mp (List.mem_map.mpr ⟨kv, hkv, rfl⟩)
+    obtain ⟨o, ho, hto⟩ := List.mem_flatMap.mp hmem
+    simp only [boundTitles, List.mem_cons, List.not_mem_nil, or_false] at hto
+    have hname := h o ho
+    rcases hto with e | e <;> rw [e] at hf
+    · rw [split_scopeKey hname.2.1 hdl] at hf
+      simp only [hname.1, if_false, Option.some.injEq] at hf
+      exact hf ▸ ho
+    · rw [split_scopeKey hname.2.1 hdu] at hf
+      simp only [hname.1, if_false, Option.some.injEq] at hf
+      exact hf ▸ ho
+  · intro hx
+    have hname := h x hx
+    have hmem : scopeKey x sLower ∈ ob.map (·.1) :=
+      (hob _).mpr (List.mem_flatMap.mpr ⟨x, hx, by simp [boundTitles]⟩)
+    obtain ⟨kv, hkv, he⟩ := List.mem_map.mp hmem
+    apply List.mem_filterMap.mpr
+    refine ⟨kv, hkv, ?_⟩
+    rw [he, split_scopeKey hname.2.1 hdl]
+    simp [hname.1]
+
+end Csv
+
+namespace Csv
+open Text
+
+/-! ### `CsvReader.__init__` on the writer's header -/
+
+section setup
+variable {ER : Type} (C : Codec ER) (rs : List (PRec ER))
+
+/-- the reader state that `__init__` reaches on the writer's header -/
+def expReader : PRReader :=
+  let A := C.titles (rs.map (·.er))
+  let a := A.length
+  let B := bbKeys rs
+  let Oz := ((objKeys rs).flatMap objTitles).zipIdx (a + 4 + B.length)
+  ⟨A.zipIdx, a + 2, a + 3, a + 1, a, B.zipIdx (a + 4),
+    sortPairs (Oz.filter (fun c => isBoundKey c.1)), Oz.filter (fun c => !isBoundKey c.1)⟩
+
+theorem fixed_distinct : kNItems ≠ kBinHeight ∧ kNItems ≠ kBinWidth ∧ kNItems ≠ kNDiff ∧
+    kNDiff ≠ kBinHeight ∧ kNDiff ≠ kBinWidth ∧ kBinWidth ≠ kBinHeight := by decide
+
+theorem filterMap_all_some {α β : Type} (l : List α) (f : α → Option β) (g : α → β)
+    (h : ∀ c ∈ l, f c = some (g c)) : l.filterMap f = l.map g := by
+  induction l with
+  | nil => rfl
+  | cons c l ih => simp [List.filterMap_cons, h c (by simp), ih (fun x hx => h x (by simp [hx]))]
+
+theorem filterMap_all_none {α β : Type} (l : List α) (f : α → Option β)
+    (h : ∀ c ∈ l, f c = none) : l.filterMap f = [] := by
+  induction l with
+  | nil => rfl
+  | cons c l ih => simp [List.filterMap_cons, h c (by simp), ih (fun x hx => h x (by simp [hx]))]
+
+/-- the bin-bound selection on a dictionary that holds the bin-bound columns followed by the objective
+columns: exactly the bin-bound columns are taken, and re-scoping restores their titles -/
+theorem selectScope_bins (Bz Oz : Cols) (hB : ∀ c ∈ Bz, BBKey c.1) (hBne : Bz ≠ [])
+    (hO : ∀ c ∈ Oz, ((sBinsLB ++ ['.']).isPrefixOf c.1 = false) ∧ c.1 ≠ sBinsLB)
+    (hdis : ∀ c ∈ Oz, c.1 ∉ Bz.map (·.1)) :
+    ∃ sel, csvSelectScope (Bz ++ Oz) (some sBinsLB) (fun _ => false) = some (sel, Oz) ∧
+      sel.map (fun p => (rescope p.1, p.2)) = Bz := by
+  let u : Str → Str := fun k => (scopeUse sBinsLB k).getD k
+  have hu : ∀ c ∈ Bz, scopeUse sBinsLB c.1 = some (u c.1) ∧ rescope (u c.1) = c.1 := by
+    intro c hc
+    obtain ⟨v, hv, hr⟩ := rescope_strip (hB c hc)
+    simp only [u, hv, Option.getD_some]
+    exact ⟨trivial, hr⟩
+  refine ⟨Bz.map (fun c => (u c.1, c.2)), ?_, ?_⟩
+  · unfold csvSelectScope
+    have hf : (Bz ++ Oz).filter (fun c => !(fun _ : Str => false) c.1) = Bz ++ Oz :=
+      List.filter_eq_self.mpr (by simp)
+    simp only [hf]
+    rw [List.filterMap_append,
+      filterMap_all_some Bz _ (fun c => (c.1, u c.1, c.2)) (fun c hc => by simp [(hu c hc).1]),
+      filterMap_all_none Oz _ (fun c hc => by simp [scopeUse_none (hO c hc)]), List.append_nil]
+    have hne : (Bz.map (fun c => (c.1, u c.1, c.2))).isEmpty = false := by
+      cases Bz with
+      | nil => exact absurd rfl hBne
+      | cons c l => rfl
+    simp only [hne, Bool.false_eq_true, if_false, Option.some.injEq, Prod.mk.injEq, List.map_map]
+    refine ⟨by simp [Function.comp], ?_⟩
+    rw [List.filter_append]
+    have hk : List.map ((fun x : Str × Str × Nat => x.1) ∘ fun c : Str × Nat => (c.1, u c.1, c.2)) Bz = Bz.map (·.1) := by
+      simp [Function.comp]
+    rw [hk]
+    have h1 : Bz.filter (fun c => !(Bz.map (·.1)).contains c.1) = [] := by
+      apply List.filter_eq_nil_iff.mpr
+      intro c hc
+      simp only [Bool.not_eq_true', Bool.not_eq_false, List.contains_iff_mem]
+      exact List.mem_map.mpr ⟨c, hc, rfl⟩
+    have h2 : Oz.filter (fun c => !(Bz.map (·.1)).contains c.1) = Oz := by
+      apply List.filter_eq_self.mpr
+      intro c hc
+      have := hdis c hc
+      simp only [Bool.not_eq_true', ← Bool.not_eq_true, List.contains_iff_mem]
+      exact this
+    rw [h1, h2, List.nil_append]
+  · rw [List.map_map]
+    have : ∀ l : Cols, (∀ c ∈ l, rescope (u c.1) = c.1) →
+        l.map ((fun p : Str × Nat => (rescope p.1, p.2)) ∘ fun c : Str × Nat => (u c.1, c.2)) = l := by
+      intro l hl
+      induction l with
+      | nil => rfl
+      | cons c l ih =>
+        simp only [List.map_cons, Function.comp, hl c (by simp)]
+        rw [show l.map _ = l from ih (fun x hx => hl x (by simp [hx]))]
+    exact this Bz (fun c hc => (hu c hc).2)
+
+/-- the selection of the objective-bound columns on a dictionary that holds the objective columns -/
+theorem selectScope_bounds (Oz : Cols) (hne : Oz.filter (fun c => isBoundKey c.1) ≠ []) :
+    csvSelectScope Oz none (fun s => !isBoundKey s) =
+      some (Oz.filter (fun c => isBoundKey c.1), Oz.filter (fun c => !isBoundKey c.1)) := by
+  unfold csvSelectScope
+  simp only [Bool.not_not]
+  have hne' : (List.map (fun c : Str × Nat => (c.1, c.1, c.2)) (Oz.filter (fun c => isBoundKey c.1))).isEmpty = false := by
+    cases h : Oz.filter (fun c => isBoundKey c.1) with
+    | nil => exact absurd h hne
+    | cons c l => rfl
+  simp only [hne', Bool.false_eq_true, if_false, Option.some.injEq, Prod.mk.injEq, List.map_map]
+  refine ⟨(List.map_congr_left (fun c _ => rfl)).trans (List.map_id _), ?_⟩
+  apply List.filter_congr
+  intro c hc
+  have hk : List.map ((fun x : Str × Str × Nat => x.1) ∘ fun c : Str × Nat => (c.1, c.1, c.2))
+      (Oz.filter (fun c => isBoundKey c.1)) = (Oz.filter (fun c => isBoundKey c.1)).map (·.1) := by
+    simp [Function.comp]
+  rw [hk]
+  cases hb : isBoundKey c.1 with
+  | true =>
+    simp only [Bool.not_true, Bool.not_eq_false', List.contains_iff_mem]
+    exact List.mem_map.mpr ⟨c, List.mem_filter.mpr ⟨hc, hb⟩, rfl⟩
+  | false =>
+    simp only [Bool.not_false, Bool.not_eq_true', ← Bool.not_eq_true, List.contains_iff_mem]
+    intro hm
+    obtain ⟨b, hbm, he⟩ := List.mem_map.mp hm
+    have := (List.mem_filter.mp hbm).2
+    rw [he, hb] at this
+    cases this
+
+/-- `CsvReader.__init__` succeeds on the writer's header and finds every column where the writer put it -/
+theorem prSetup_header
+    (hn : (prHeader C rs).Nodup)
+    (hA : ∀ t ∈ C.titles (rs.map (·.er)), t ∈ C.keys)
+    (hdisj : ∀ k ∈ C.keys, k ∉ fixedTitles ++ bbKeys rs ++ (objKeys rs).flatMap objTitles)
+    (hbb : ∀ k ∈ bbKeys rs, BBKey k) (hbne : bbKeys rs ≠ [])
+    (hobj : ∀ o ∈ objKeys rs, ObjName o) (hone : objKeys rs ≠ []) :
+    prSetup C.keys (prHeader C rs).zipIdx = some (expReader C rs) := by
+  -- names
+  generalize hAdef : C.titles (rs.map (·.er)) = A at *
+  generalize hBdef : bbKeys rs = B at *
+  generalize hKdef : objKeys rs = ks at *
+  have hBsorted : B.Pairwise (· < ·) := hBdef ▸ sorted_sortedSet _
+  have hKsorted : ks.Pairwise (· < ·) := hKdef ▸ sorted_sortedSet _
+  unfold prHeader at hn ⊢
+  rw [hAdef, hBdef, hKdef] at hn ⊢
+  unfold expReader
+  simp only [hAdef, hBdef, hKdef]
+  have hfilt := filter_bound_titles ks hobj
+  have hmemO : ∀ t ∈ ks.flatMap objTitles, ∃ o ∈ ks, t ∈ objTitles o := fun t ht => List.mem_flatMap.mp ht
+  generalize hOdef : ks.flatMap objTitles = O at *
+  -- disjointness facts from the absence of duplicate titles
+  have hn1 := List.nodup_append.mp hn
+  have hn2 := List.nodup_append.mp hn1.1
+  have hFB : ∀ f ∈ fixedTitles, f ∉ B := fun f hf hb => hn2.2.2 f (by simp [hf]) f hb rfl
+  have hFO : ∀ f ∈ fixedTitles, f ∉ O := fun f hf ho => hn1.2.2 f (by simp [hf]) f ho rfl
+  have hBO : ∀ b ∈ B, b ∉ O := fun b hb ho => hn1.2.2 b (by simp [hb]) b ho rfl
+  have hkF : ∀ f ∈ fixedTitles, f ∉ C.keys := fun f hf hk => hdisj f hk (by simp [hf])
+  have hkB : ∀ b ∈ B, b ∉ C.keys := fun b hb hk => hdisj b hk (by simp [hb])
+  have hkO : ∀ t ∈ O, t ∉ C.keys := fun t ht hk => hdisj t hk (by simp [ht])
+  -- the dictionary, part by part
+  have hz : (A ++ fixedTitles ++ B ++ O).zipIdx =
+      A.zipIdx ++ fixedTitles.zipIdx A.length ++ B.zipIdx (A.length + 4) ++ O.zipIdx (A.length + 4 + B.length) := by
+    simp [List.zipIdx_append, fixedTitles, Nat.add_assoc]
+  have cont : ∀ (l : List Str) (n : Nat), (∀ x ∈ l, x ∈ C.keys) →
+      (l.zipIdx n).filter (fun c => C.keys.contains c.1) = l.zipIdx n ∧
+      (l.zipIdx n).filter (fun c => !C.keys.contains c.1) = [] := by
+    intro l n h
+    exact ⟨filter_zipIdx_all l n (fun x => C.keys.contains x) (fun x hx => List.contains_iff_mem.mpr (h x hx)),
+      filter_zipIdx_none l n (fun x => !C.keys.contains x) (fun x hx => by simp [h x hx])⟩
+  have ncont : ∀ (l : List Str) (n : Nat), (∀ x ∈ l, x ∉ C.keys) →
+      (l.zipIdx n).filter (fun c => C.keys.contains c.1) = [] ∧
+      (l.zipIdx n).filter (fun c => !C.keys.contains c.1) = l.zipIdx n := by
+    intro l n h
+    exact ⟨filter_zipIdx_none l n (fun x => C.keys.contains x) (fun x hx => by simpa using h x hx),
+      filter_zipIdx_all l n (fun x => !C.keys.contains x) (fun x hx => by simpa using h x hx)⟩
+  have fB := ncont B (A.length + 4) hkB
+  have fO := ncont O (A.length + 4 + B.length) hkO
+  have hBzk : (B.zipIdx (A.length + 4)).map (·.1) = B := List.zipIdx_map_fst _ _
+  have hOzk : (O.zipIdx (A.length + 4 + B.length)).map (·.1) = O := List.zipIdx_map_fst _ _
+  have hBzne : B.zipIdx (A.length + 4) ≠ [] := by
+    cases hB : B with
+    | nil => exact absurd hB hbne
+    | cons b t => simp [List.zipIdx_cons]
+  have hOBk : ((O.zipIdx (A.length + 4 + B.length)).filter (fun c => isBoundKey c.1)).map (·.1) = ks.flatMap boundTitles := by
+    rw [map_fst_filter_zipIdx, ← hfilt.1]
+  have hOVk : ((O.zipIdx (A.length + 4 + B.length)).filter (fun c => !isBoundKey c.1)).map (·.1) = ks := by
+    rw [map_fst_filter_zipIdx O _ (fun t => !isBoundKey t)]
+    exact hfilt.2
+  have hBmem : ∀ c ∈ B.zipIdx (A.length + 4), c.1 ∈ B := fun c hc => List.fst_mem_of_mem_zipIdx hc
+  have hOmem : ∀ c ∈ O.zipIdx (A.length + 4 + B.length), c.1 ∈ O := fun c hc => List.fst_mem_of_mem_zipIdx hc
+  generalize hBz : B.zipIdx (A.length + 4) = Bz at *
+  generalize hOz : O.zipIdx (A.length + 4 + B.length) = Oz at *
+  unfold prSetup
+  rw [hz]
+  simp only [List.filter_append, (cont A 0 hA).1, (cont A 0 hA).2,
+    (ncont fixedTitles A.length hkF).1, (ncont fixedTitles A.length hkF).2,
+    fB.1, fB.2, fO.1, fO.2,
+    List.append_nil, List.nil_append]
+  -- the four fixed columns
+  have hFz : fixedTitles.zipIdx A.length =
+      [(kBinHeight, A.length), (kBinWidth, A.length + 1), (kNItems, A.length + 2), (kNDiff, A.length + 3)] := by
+    simp [fixedTitles, List.zipIdx_cons]
+  obtain ⟨d1, d2, d3, d4, d5, d6⟩ := fixed_distinct
+  have notin : ∀ f ∈ fixedTitles, f ∉ (Bz ++ Oz).map (·.1) := by
+    intro f hf
+    rw [List.map_append, hBzk, hOzk, List.mem_append]
+    exact fun h => h.elim (hFB f hf) (hFO f hf)
+  have s1 := csvColumn_mid [(kBinHeight, A.length), (kBinWidth, A.length + 1)]
+    ((kNDiff, A.length + 3) :: (Bz ++ Oz)) kNItems (A.length + 2)
+    (by simp [d1, d2]) (by
+      simp only [List.map_cons, List.mem_cons, not_or]
+      exact ⟨d3, notin kNItems (by simp [fixedTitles])⟩)
+  have s2 := csvColumn_mid [(kBinHeight, A.length), (kBinWidth, A.length + 1)]
+    (Bz ++ Oz) kNDiff (A.length + 3) (by simp [d4, d5]) (notin kNDiff (by simp [fixedTitles]))
+  have s3 := csvColumn_mid [(kBinHeight, A.length)] (Bz ++ Oz) kBinWidth (A.length + 1)
+    (by simp [d6]) (notin kBinWidth (by simp [fixedTitles]))
+  have s4 := csvColumn_mid [] (Bz ++ Oz) kBinHeight A.length (by simp) (notin kBinHeight (by simp [fixedTitles]))
+  rw [hFz]
+  simp only [List.cons_append, List.nil_append, List.append_assoc] at s1 s2 s3 s4 ⊢
+  rw [s1]; simp only []
+  rw [s2]; simp only []
+  rw [s3]; simp only []
+  rw [s4]; simp only []
+  -- the bin bounds
+  have hObins : ∀ c ∈ Oz, ((sBinsLB ++ ['.']).isPrefixOf c.1 = false) ∧ c.1 ≠ sBinsLB := by
+    intro c hc
+    obtain ⟨o, ho, hto⟩ := hmemO c.1 (hOmem c hc)
+    exact objTitle_not_bins (hobj o ho) hto
+  obtain ⟨sel, hsel, hselr⟩ := selectScope_bins Bz Oz
+    (fun c hc => hbb c.1 (hBmem c hc)) hBzne hObins
+    (fun c hc => by rw [hBzk]; exact fun hb => hBO c.1 hb (hOmem c hc))
+  rw [hsel]; simp only []
+  rw [hselr, sortPairs_of_sorted (by rw [hBzk]; exact hBsorted)]
+  -- the objective bounds
+  have hOBne : Oz.filter (fun c => isBoundKey c.1) ≠ [] := by
+    intro h
+    rw [h] at hOBk
+    cases hk : ks with
+    | nil => exact hone hk
+    | cons o t => rw [hk] at hOBk; simp [boundTitles] at hOBk
+  rw [selectScope_bounds Oz hOBne]; simp only []
+  have hlenOB : (Oz.filter (fun c => isBoundKey c.1)).length = 2 * ks.length := by
+    have := congrArg List.length hOBk
+    rw [List.length_map] at this
+    rw [this]
+    have : ∀ l : List Str, (l.flatMap boundTitles).length = 2 * l.length := by
+      intro l
+      induction l with
+      | nil => rfl
+      | cons o t ih => simp only [List.flatMap_cons, List.length_append, ih, boundTitles, List.length_cons, List.length_nil]; omega
+    exact this ks
+  rw [length_sortPairs, hlenOB]
+  have : ¬ (2 * ks.length % 2 ≠ 0) := by omega
+  rw [if_neg this]
+  have hnames : namesOfBounds (sortPairs (Oz.filter (fun c => isBoundKey c.1))) = ks := by
+    apply namesOfBounds_eq ks hKsorted hobj
+    intro t
+    rw [← hOBk]
+    constructor
+    · intro h
+      obtain ⟨q, hq, he⟩ := List.mem_map.mp h
+      exact List.mem_map.mpr ⟨q, mem_sortPairs.mp hq, he⟩
+    · intro h
+      obtain ⟨q, hq, he⟩ := List.mem_map.mp h
+      exact List.mem_map.mpr ⟨q, mem_sortPairs.mpr hq, he⟩
+  rw [hnames]
+  have hcs := csvColumns_self (Oz.filter (fun c => !isBoundKey c.1)) (by rw [hOVk]; exact nodup_of_sorted hKsorted)
+  rw [hOVk] at hcs
+  rw [hcs]; simp only []
+  have hlenOV : (Oz.filter (fun c => !isBoundKey c.1)).length = ks.length := by
+    have := congrArg List.length hOVk
+    rwa [List.length_map] at this
+  have hnonempty : (Oz.filter (fun c => !isBoundKey c.1)).isEmpty = false := by
+    cases hq : Oz.filter (fun c => !isBoundKey c.1) with
+    | nil => rw [hq] at hlenOV; cases hk : ks with
+      | nil => exact absurd hk hone
+      | cons o t => rw [hk] at hlenOV; simp at hlenOV
+    | cons c l => rfl
+  rw [hnonempty, hlenOV]
+  simp only [Bool.false_or, ne_eq, not_true_eq_false, decide_false, Bool.false_eq_true, if_false]
+
+end setup
+end Csv
+
+namespace Csv
+open Text
+
+/-! ### reading a row the writer produced -/
+
+theorem cellOpt_ne_nil (v : Int) : cellOpt (some v) ≠ [] := showInt_ne_nil v
+
+theorem readMap_spec (data : List Str) (L : List (Str × Nat)) (m : List (Str × Int))
+    (h : ∀ p ∈ L, data[p.2]? = some (cellOpt (m.lookup p.1))) :
+    readMap data L = some (L.filterMap (fun p => (m.lookup p.1).map (fun v => (p.1, v)))) := by
+  induction L with
+  | nil => rfl
+  | cons p L ih =>
+    cases p with
+    | mk k i =>
+      have hp := h (k, i) (by simp)
+      have ih' := ih (fun q hq => h q (by simp [hq]))
+      simp only at hp
+      simp only [readMap, hp, List.filterMap_cons]
+      cases hl : m.lookup k with
+      | none => simp [cellOpt, ih']
+      | some v =>
+        simp only [cellOpt, if_neg (showInt_ne_nil v), parseInt?_showInt, ih', Option.map_some]
+
+theorem readMap_restrict (data : List Str) (L : List (Str × Nat)) (m : List (Str × Int))
+    (h : ∀ p ∈ L, data[p.2]? = some (cellOpt (m.lookup p.1)))
+    (hL : (L.map (·.1)).Pairwise (· < ·)) (hm : SortedKeys m) (hsub : ∀ p ∈ m, p.1 ∈ L.map (·.1)) :
+    readMap data L = some m := by
+  rw [readMap_spec data L m h]
+  congr 1
+  have := restrict_eq (L.map (·.1)) m hL hm hsub
+  rw [List.filterMap_map] at this
+  exact this
+
+theorem get_part (pre l l' post : List Str) (hlen : l.length = l'.length) {k : Str} {i : Nat}
+    (hm : (k, i) ∈ l.zipIdx pre.length) :
+    ∃ d, (pre ++ l' ++ post)[i]? = some d ∧ (k, d) ∈ l.zip l' := by
+  obtain ⟨h1, h2, h3⟩ := List.mem_zipIdx hm
+  have hj : i - pre.length < l'.length := by omega
+  refine ⟨l'[i - pre.length], ?_, ?_⟩
+  · rw [List.append_assoc, List.getElem?_append_right h1, List.getElem?_append_left hj,
+      List.getElem?_eq_getElem hj]
+  · rw [List.mem_iff_getElem]
+    refine ⟨i - pre.length, by simp only [List.length_zip]; omega, ?_⟩
+    simp [h3]
+
+theorem zip_map_self {α : Type} (l : List α) (g f : α → Str) :
+    (l.map g).zip (l.map f) = l.map (fun x => (g x, f x)) := by
+  induction l with
+  | nil => rfl
+  | cons a l ih => simp [ih]
+
+theorem zip_flatMap {α : Type} (ks : List α) (T D : α → List Str) (h : ∀ a, (T a).length = (D a).length) :
+    (ks.flatMap T).zip (ks.flatMap D) = ks.flatMap (fun a => (T a).zip (D a)) := by
+  induction ks with
+  | nil => rfl
+  | cons a ks ih => simp only [List.flatMap_cons, List.zip_append (h a), ih]
+
+theorem length_flatMap_eq {α : Type} (ks : List α) (T D : α → List Str) (h : ∀ a, (T a).length = (D a).length) :
+    (ks.flatMap T).length = (ks.flatMap D).length := by
+  induction ks with
+  | nil => rfl
+  | cons a ks ih => simp only [List.flatMap_cons, List.length_append, ih, h a]
+
+theorem lookup_zipIdx (l : List Str) (hn : l.Nodup) (j : Nat) (hj : j < l.length) :
+    (l.zipIdx).lookup l[j] = some j := by
+  have hm : (l[j], j) ∈ l.zipIdx := List.mem_zipIdx_iff_getElem?.mpr (by simp [hj])
+  have := lookup_of_mem (m := l.zipIdx) (by rw [List.zipIdx_map_fst]; exact hn) hm
+  simpa using this
+
+theorem mapM_map_some {α β : Type} (l : List α) (g : α → β) (f : β → Option α)
+    (h : ∀ a ∈ l, f (g a) = some a) : (l.map g).mapM f = some l := by
+  induction l with
+  | nil => rfl
+  | cons a l ih =>
+    simp [List.mapM_cons, h a (by simp), ih (fun x hx => h x (by simp [hx]))]
+
+end Csv
+
+namespace Csv
+open Text
+
+section row
+variable {ER : Type} (C : Codec ER) (V : ErView ER) (rs : List (PRec ER))
+
+theorem mem_bbKeys {r : PRec ER} (hr : r ∈ rs) {p : Str × Int} (hp : p ∈ r.binBounds) : p.1 ∈ bbKeys rs := by
+  unfold bbKeys
+  rw [mem_sortedSet]
+  exact List.mem_flatMap.mpr ⟨r, hr, List.mem_map.mpr ⟨p, hp, rfl⟩⟩
+
+theorem mem_objKeys {r : PRec ER} (hr : r ∈ rs) {p : Str × Int} (hp : p ∈ r.objectives) : p.1 ∈ objKeys rs := by
+  unfold objKeys
+  rw [mem_sortedSet]
+  exact List.mem_flatMap.mpr ⟨r, hr, List.mem_map.mpr ⟨p, hp, rfl⟩⟩
+
+theorem of_mem_bbKeys {k : Str} (h : k ∈ bbKeys rs) : ∃ r ∈ rs, ∃ p ∈ r.binBounds, p.1 = k := by
+  unfold bbKeys at h
+  rw [mem_sortedSet] at h
+  obtain ⟨r, hr, hk⟩ := List.mem_flatMap.mp h
+  obtain ⟨p, hp, he⟩ := List.mem_map.mp hk
+  exact ⟨r, hr, p, hp, he⟩
+
+theorem of_mem_objKeys {k : Str} (h : k ∈ objKeys rs) : ∃ r ∈ rs, ∃ p ∈ r.objectives, p.1 = k := by
+  unfold objKeys at h
+  rw [mem_sortedSet] at h
+  obtain ⟨r, hr, hk⟩ := List.mem_flatMap.mp h
+  obtain ⟨p, hp, he⟩ := List.mem_map.mp hk
+  exact ⟨r, hr, p, hp, he⟩
+
+theorem length_prRow (D : PRDomain C V rs) {r : PRec ER} (hr : r ∈ rs) :
+    (prRow C rs r).length = (prHeader C rs).length := by
+  unfold prRow prHeader
+  have h1 := D.codec.len r.er (List.mem_map.mpr ⟨r, hr, rfl⟩)
+  have h2 := length_flatMap_eq (objKeys rs) (prObjCells r) objTitles (fun a => rfl)
+  simp only [List.length_append, h1, List.length_map, h2, fixedTitles, List.length_cons, List.length_nil]
+
+/-- `parse_row` (and the constructor) on a row of the writer returns the record -/
+theorem prParseRow_row (D : PRDomain C V rs) {r : PRec ER} (hr : r ∈ rs) :
+    prParseRow C V (expReader C rs) (prRow C rs r) = some r := by
+  have hcanon := D.canon r hr
+  have hobjN : ∀ o ∈ objKeys rs, ObjName o := by
+    intro o ho
+    obtain ⟨r', hr', p, hp, rfl⟩ := of_mem_objKeys rs ho
+    exact D.objName r' hr' p hp
+  -- names for the parts
+  generalize hAdef : C.titles (rs.map (·.er)) = A
+  generalize hRAdef : C.row (rs.map (·.er)) r.er = RA
+  have hlenA : RA.length = A.length := by
+    rw [← hAdef, ← hRAdef]; exact D.codec.len r.er (List.mem_map.mpr ⟨r, hr, rfl⟩)
+  have hAn : A.Nodup := hAdef ▸ D.codec.nodup
+  generalize hBdef : bbKeys rs = B
+  generalize hKdef : objKeys rs = ks
+  have hBsorted : B.Pairwise (· < ·) := hBdef ▸ sorted_sortedSet _
+  have hKsorted : ks.Pairwise (· < ·) := hKdef ▸ sorted_sortedSet _
+  rw [hKdef] at hobjN
+  generalize hRFdef : [showInt r.binH, showInt r.binW, showInt r.nItems, showInt r.nDiff] = RF
+  have hlenF : RF.length = 4 := by rw [← hRFdef]; rfl
+  have hdata : prRow C rs r = RA ++ RF ++ B.map (fun k => cellOpt (r.binBounds.lookup k)) ++ ks.flatMap (prObjCells r) := by
+    unfold prRow; rw [hRAdef, hRFdef, hBdef, hKdef]
+  generalize hdat : prRow C rs r = data at *
+  -- the embedded record
+  have her : C.read (erLookup A.zipIdx data) = some r.er := by
+    apply D.codec.back r.er (List.mem_map.mpr ⟨r, hr, rfl⟩)
+    · rw [hAdef, hRAdef]
+      intro p hp
+      obtain ⟨j, hj, hpj⟩ := List.getElem_of_mem hp
+      simp only [List.length_zip] at hj
+      have hjA : j < A.length := by omega
+      have hjR : j < RA.length := by omega
+      have hp1 : p = (A[j], RA[j]) := by rw [← hpj]; simp
+      rw [hp1]
+      simp only [erLookup, lookup_zipIdx A hAn j hjA, Option.bind_some]
+      rw [hdata, List.append_assoc, List.append_assoc, List.getElem?_append_left hjR, List.getElem?_eq_getElem hjR]
+    · rw [hAdef]
+      intro k _ hk
+      simp only [erLookup]
+      rw [lookup_eq_none_of_not_mem (by rw [List.zipIdx_map_fst]; exact hk)]
+      rfl
+  -- the four fixed cells
+  have hget : ∀ j (hj : j < 4), data[A.length + j]? = RF[j]? := by
+    intro j hj
+    rw [hdata, List.append_assoc, List.append_assoc, List.getElem?_append_right (by omega),
+      List.getElem?_append_left (by omega)]
+    congr 1; omega
+  have hiN : readInt data (A.length + 2) = some r.nItems := by
+    simp only [readInt, hget 2 (by omega), ← hRFdef]
+    simp [parseInt?_showInt]
+  have hiD : readInt data (A.length + 3) = some r.nDiff := by
+    simp only [readInt, hget 3 (by omega), ← hRFdef]
+    simp [parseInt?_showInt]
+  have hiW : readInt data (A.length + 1) = some r.binW := by
+    simp only [readInt, hget 1 (by omega), ← hRFdef]
+    simp [parseInt?_showInt]
+  have hiH : readInt data A.length = some r.binH := by
+    have := hget 0 (by omega)
+    simp only [Nat.add_zero] at this
+    simp only [readInt, this, ← hRFdef]
+    simp [parseInt?_showInt]
+  -- the bin bounds
+  have hbins : readMap data (B.zipIdx (A.length + 4)) = some r.binBounds := by
+    apply readMap_restrict _ _ _ _ (by rw [List.zipIdx_map_fst]; exact hBsorted) hcanon.2.2
+      (fun p hp => by rw [List.zipIdx_map_fst, ← hBdef]; exact mem_bbKeys rs hr hp)
+    intro p hp
+    have hpre : (RA ++ RF).length = A.length + 4 := by simp [hlenA, hlenF]
+    obtain ⟨d, hd, hz⟩ := get_part (RA ++ RF) B (B.map (fun k => cellOpt (r.binBounds.lookup k)))
+      (ks.flatMap (prObjCells r)) (by simp) (k := p.1) (i := p.2) (by rw [hpre]; exact hp)
+    rw [hdata, hd]
+    have := zip_map_self B id (fun k => cellOpt (r.binBounds.lookup k))
+    simp only [List.map_id] at this
+    rw [this] at hz
+    obtain ⟨x, _, hx⟩ := List.mem_map.mp hz
+    simp only [id, Prod.mk.injEq] at hx
+    rw [← hx.2, hx.1]
+  -- the objective columns
+  have hOcell : ∀ p ∈ (ks.flatMap objTitles).zipIdx (A.length + 4 + B.length),
+      ∃ d o, data[p.2]? = some d ∧ o ∈ ks ∧ (p.1, d) ∈ (objTitles o).zip (prObjCells r o) := by
+    intro p hp
+    have hpre : (RA ++ RF ++ B.map (fun k => cellOpt (r.binBounds.lookup k))).length = A.length + 4 + B.length := by
+      simp only [List.length_append, List.length_map, hlenA, hlenF]
+    obtain ⟨d, hd, hz⟩ := get_part (RA ++ RF ++ B.map (fun k => cellOpt (r.binBounds.lookup k)))
+      (ks.flatMap objTitles) (ks.flatMap (prObjCells r)) []
+      (length_flatMap_eq ks objTitles (prObjCells r) (fun a => rfl)) (k := p.1) (i := p.2) (by rw [hpre]; exact hp)
+    rw [zip_flatMap ks objTitles (prObjCells r) (fun a => rfl)] at hz
+    obtain ⟨o, ho, hzo⟩ := List.mem_flatMap.mp hz
+    refine ⟨d, o, ?_, ho, hzo⟩
+    rw [hdata, ← hd, List.append_nil]
+  have hbounds : readMap data (sortPairs (((ks.flatMap objTitles).zipIdx (A.length + 4 + B.length)).filter
+      (fun c => isBoundKey c.1))) = some r.objBounds := by
+    have hkeys : ((((ks.flatMap objTitles).zipIdx (A.length + 4 + B.length)).filter
+        (fun c => isBoundKey c.1)).map (·.1)) = ks.flatMap boundTitles := by
+      rw [map_fst_filter_zipIdx, (filter_bound_titles ks hobjN).1]
+    apply readMap_restrict _ _ _ _ _ hcanon.2.1
+    · intro p hp
+      obtain ⟨q, hq, hor⟩ := D.bounds r hr p hp
+      have hqk : q.1 ∈ ks := hKdef ▸ mem_objKeys rs hr hq
+      have : p.1 ∈ ks.flatMap boundTitles := by
+        apply List.mem_flatMap.mpr
+        refine ⟨q.1, hqk, ?_⟩
+        simp only [boundTitles, List.mem_cons, List.not_mem_nil, or_false]
+        exact hor
+      rw [← hkeys] at this
+      obtain ⟨c, hc, he⟩ := List.mem_map.mp this
+      exact List.mem_map.mpr ⟨c, mem_sortPairs.mpr hc, he⟩
+    · intro p hp
+      have hp' := List.mem_filter.mp (mem_sortPairs.mp hp)
+      obtain ⟨d, o, hd, ho, hz⟩ := hOcell p hp'.1
+      rw [hd]
+      have hb : isBoundKey p.1 = true := hp'.2
+      simp only [objTitles, prObjCells, List.zip_cons_cons, List.zip_nil_right, List.mem_cons,
+        Prod.mk.injEq, List.not_mem_nil, or_false] at hz
+      rcases hz with ⟨h1, h2⟩ | ⟨h1, h2⟩ | ⟨h1, h2⟩
+      · rw [h2, h1]
+      · rw [h1, isBoundKey_name (hobjN o ho)] at hb; cases hb
+      · rw [h2, h1]
+    · apply sorted_sortPairs
+      rw [hkeys]
+      exact nodup_boundTitles ks (nodup_of_sorted hKsorted) hobjN
+  have hobjs : readMap data (((ks.flatMap objTitles).zipIdx (A.length + 4 + B.length)).filter
+      (fun c => !isBoundKey c.1)) = some r.objectives := by
+    have hkeys : ((((ks.flatMap objTitles).zipIdx (A.length + 4 + B.length)).filter
+        (fun c => !isBoundKey c.1)).map (·.1)) = ks := by
+      rw [map_fst_filter_zipIdx _ _ (fun t => !isBoundKey t), (filter_bound_titles ks hobjN).2]
+    apply readMap_restrict _ _ _ _ (by rw [hkeys]; exact hKsorted) hcanon.1
+      (fun p hp => by rw [hkeys, ← hKdef]; exact mem_objKeys rs hr hp)
+    intro p hp
+    have hp' := List.mem_filter.mp hp
+    obtain ⟨d, o, hd, ho, hz⟩ := hOcell p hp'.1
+    rw [hd]
+    have hb : isBoundKey p.1 = false := by simpa using hp'.2
+    simp only [objTitles, prObjCells, List.zip_cons_cons, List.zip_nil_right, List.mem_cons,
+      Prod.mk.injEq, List.not_mem_nil, or_false] at hz
+    rcases hz with ⟨h1, h2⟩ | ⟨h1, h2⟩ | ⟨h1, h2⟩
+    · rw [h1, isBoundKey_lower] at hb; cases hb
+    · rw [h2, h1]
+    · rw [h1, isBoundKey_upper] at hb; cases hb
+  unfold prParseRow expReader
+  simp only [hAdef, hBdef, hKdef, her, hiN, hiD, hiW, hiH, hbins, hbounds, hobjs]
+  unfold mkPRec
+  have hok := D.ok r hr
+  cases r
+  simp only at hok ⊢
+  rw [if_pos hok]
+
+end row
+end Csv
+
+namespace Csv
+open Text
+
+section final
+variable {ER : Type} (C : Codec ER) (V : ErView ER) (rs : List (PRec ER))
+
+theorem objectives_ne_nil_of_ok {r : PRec ER} (h : r.Ok V) : r.objectives ≠ [] := by
+  intro he
+  unfold PRec.Ok PRec.okB at h
+  rw [he] at h
+  simp at h
+
+/-- reading back what the writer wrote -/
+theorem prRead_prWrite (D : PRDomain C V rs) (t : Table) (hw : prWrite C rs = some t) :
+    prRead C V t = some rs := by
+  unfold prWrite at hw
+  split at hw
+  · rename_i hcols
+    cases hw
+    have hcols' : ∃ cols, colsOf (prHeader C rs) = some cols := Option.isSome_iff_exists.mp hcols
+    obtain ⟨cols, hc⟩ := hcols'
+    have hnodup : (prHeader C rs).Nodup ∧ cols = (prHeader C rs).zipIdx := by
+      unfold colsOf at hc
+      split at hc
+      · cases hc
+      · rename_i hcond
+        simp only [Bool.or_eq_true, Bool.not_eq_true', decide_eq_false_iff_not, not_or] at hcond
+        cases hc
+        exact ⟨Classical.not_not.mp hcond.2, rfl⟩
+    obtain ⟨r0, hr0, hbb0⟩ := D.bbSome
+    have hbne : bbKeys rs ≠ [] := by
+      intro he
+      cases hb : r0.binBounds with
+      | nil => exact hbb0 hb
+      | cons p l =>
+        have := mem_bbKeys rs hr0 (p := p) (by rw [hb]; simp)
+        rw [he] at this; cases this
+    have hone : objKeys rs ≠ [] := by
+      intro he
+      cases ho : r0.objectives with
+      | nil => exact objectives_ne_nil_of_ok V (D.ok r0 hr0) ho
+      | cons p l =>
+        have := mem_objKeys rs hr0 (p := p) (by rw [ho]; simp)
+        rw [he] at this; cases this
+    have hsetup := prSetup_header C rs hnodup.1 D.codec.sub D.keysDisj
+      (fun k hk => by
+        obtain ⟨r, hr, p, hp, rfl⟩ := of_mem_bbKeys rs hk
+        exact D.bbKey r hr p hp)
+      hbne
+      (fun o ho => by
+        obtain ⟨r, hr, p, hp, rfl⟩ := of_mem_objKeys rs ho
+        exact D.objName r hr p hp)
+      hone
+    unfold prRead
+    simp only [hc, hnodup.2, hsetup]
+    apply mapM_map_some
+    intro r hr
+    rw [padRow_trimRow _ _ (length_prRow C V rs D hr)]
+    exact prParseRow_row C V rs D hr
+  · cases hw
+
+end final
 end Csv
